@@ -158,7 +158,7 @@ Theorem select_rows_live ds ts next w :
 Proof.
   intros [Hex Hnn [Hnd Hid] [Hrf Hli]] Hu Hdead. unfold select_rows, live_sel in *.
   assert (Hscan : existsb e_del (scan_rows ts w) = false -> scan_rows ts w = filter (fun e => live e && wpass w (e_row e)) (ents ts)).
-  { unfold scan_rows. apply filter_no_dead. }
+  { intros _. reflexivity. }
   destruct (pk_probe ds ts w) as [[k v]|] eqn:P; [|apply Hscan; exact Hdead].
   destruct (seek_row ds ts k v) as [|e l] eqn:S; [apply Hscan; exact Hdead|].
   (* the index hit leads to an entry with that key value *)
@@ -166,7 +166,8 @@ Proof.
   destruct (pk_pos ds) as [i|] eqn:PP; [|discriminate].
   destruct (idx_find v0 (get_idx ts i)) as [k0|] eqn:F; [|discriminate]. injection P as <- <-.
   unfold seek_row in S. destruct (find_ent k0 (ents ts)) as [e0|] eqn:FE; [|discriminate].
-  destruct (value_eqb (pk_val ds (e_row e0)) v0) eqn:EV; [|discriminate]. injection S as <- <-.
+  destruct (live e0 && value_eqb (pk_val ds (e_row e0)) v0) eqn:EV; [|discriminate]. injection S as <- <-.
+  apply andb_true_iff in EV. destruct EV as [_ EV].
   unfold has_dead in Hdead. cbn [existsb] in Hdead. rewrite orb_false_r in Hdead.
   unfold find_ent in FE. apply find_some in FE. destruct FE as [Hin _].
   (* the literal is not NULL: it is a key of the index *)
